@@ -639,6 +639,17 @@ def zero_valid_truth_tests(fnode):
             yield e, ZERO_VALID_KEYS[e.args[0].value]
 
 
+def _funcs_of(ctx, scope):
+    """scope: list of module names, or list of FuncInfo"""
+    out = []
+    for x in scope:
+        if isinstance(x, str):
+            out.extend(ctx.prog.functions_in(x))
+        else:
+            out.append(x)
+    return out
+
+
 def rule_F11(ctx, modnames, label):
     rule = "F11"
     ctx.rule(rule, "no truth test (if / while / and / or / not / conditional expression / comprehension filter) of a quantity for which "
@@ -654,10 +665,354 @@ def rule_F11(ctx, modnames, label):
     if len(pos) != 5:
         raise AnalysisError(rule, "positive-example", f"the matcher recognises {len(pos)}/5 idioms of its own positive example")
     n = 0
-    for m in modnames:
-        for f in ctx.prog.functions_in(m):
+    for f in _funcs_of(ctx, modnames):
+        n += 1
+        for e, what in zero_valid_truth_tests(f.node):
+            ctx.fail(rule, f"{f.qname}: `{norm(e)}`", f.qname, f"truthiness-of-zero-valid:{norm(e)[:40]}", f.module.relpath, e.lineno,
+                     f"`{norm(e)}` is {what}: 0 is a valid value, but this test treats it like None/absent")
+    ctx.ok(rule, f"{label}: {n} functions, no truth test of a zero-valid quantity")
+
+
+# --------------------------------------------------------------------------- ZIP-PAR
+# operands of zip() that are derived from one another must be element-for-element parallel
+
+def _seq_domain(e, defs, depth=0):
+    """(root text, ops) of a sequence expression: the sequence it runs parallel to and the cardinality-changing
+    operations (filter, distinct) applied on the way; root None = unknown."""
+    if depth > 16:
+        return None, ()
+    if isinstance(e, ast.Name):
+        ds = defs.get(e.id, [])
+        if len(ds) == 1:
+            r, ops = _seq_domain(ds[0], defs, depth + 1)
+            if r is not None:
+                return r, ops
+        return e.id, ()
+    if isinstance(e, (ast.ListComp, ast.GeneratorExp)) and len(e.generators) == 1:
+        g = e.generators[0]
+        src = g.iter
+        if isinstance(src, ast.Call) and norm(src.func) == "enumerate" and src.args:
+            src = src.args[0]
+        r, ops = _seq_domain(src, defs, depth + 1)
+        if g.ifs:
+            ops = ops + (("filter", " and ".join(norm(i) for i in g.ifs)),)
+        return r, ops
+    if isinstance(e, ast.Call):
+        fn = norm(e.func)
+        if fn in ("list", "tuple", "np.array", "np.asarray", "iter", "reversed") and e.args:
+            r, ops = _seq_domain(e.args[0], defs, depth + 1)
+            return r, ops + ((("reversed", ""),) if fn == "reversed" else ())
+        if fn in ("np.unique", "set", "frozenset", "sorted", "np.sort") and e.args:
+            r, ops = _seq_domain(e.args[0], defs, depth + 1)
+            kind = "distinct" if fn in ("np.unique", "set", "frozenset") else "sorted"
+            return r, ops + ((kind, ""),)
+    if isinstance(e, ast.Attribute) or isinstance(e, ast.Subscript):
+        return norm(e), ()
+    return None, ()
+
+
+def zip_parallel_sites(f):
+    from .extra import local_defs
+    defs = local_defs(f)
+    for c in own_nodes(f.node):
+        if isinstance(c, ast.Call) and isinstance(c.func, ast.Name) and c.func.id == "zip" and len(c.args) >= 2:
+            doms = [(_seq_domain(a, defs), a) for a in c.args]
+            yield c, doms
+
+
+def rule_zip_parallel(ctx, modnames, label, floor=1):
+    rule = "ZIP-PAR"
+    ctx.rule(rule, "operands of zip() that derive from the same sequence are element-for-element parallel: none of them went through "
+                   "a filter, a de-duplication or a re-ordering the other did not go through (zip silently truncates / mis-pairs otherwise)")
+    n = k = 0
+    for f in _funcs_of(ctx, modnames):
+        for c, doms in zip_parallel_sites(f):
             n += 1
-            for e, what in zero_valid_truth_tests(f.node):
-                ctx.fail(rule, f"{f.qname}: `{norm(e)}`", f.qname, f"truthiness-of-zero-valid:{norm(e)[:40]}", f.module.relpath, e.lineno,
-                         f"`{norm(e)}` is {what}: 0 is a valid value, but this test treats it like None/absent")
-    ctx.ok(rule, f"{label}: {n} functions in {len(modnames)} module(s), no truth test of a zero-valid quantity")
+            for i in range(len(doms)):
+                for j in range(i + 1, len(doms)):
+                    (r1, o1), a1 = doms[i]
+                    (r2, o2), a2 = doms[j]
+                    if r1 is None or r1 != r2:
+                        continue
+                    k += 1
+                    card = lambda ops: tuple(o for o in ops if o[0] in ("filter", "distinct", "sorted", "reversed"))
+                    ctx.check(card(o1) == card(o2), rule, f"{f.qname}: zip({norm(a1)[:25]}, {norm(a2)[:25]})", func=f, node=c,
+                              construct=f"zip-not-parallel:{f.name}:{'/'.join(o[0] for o in card(o1)) or 'as-is'}-vs-{'/'.join(o[0] for o in card(o2)) or 'as-is'}",
+                              msg=f"`{norm(c)[:70]}`: both operands run over `{r1}`, but `{norm(a1)[:30]}` is {['taken as is', 'passed through ' + ', '.join(o[0] + (' `' + o[1] + '`' if o[1] else '') for o in card(o1))][bool(card(o1))]} while "
+                                  f"`{norm(a2)[:30]}` is {['taken as is', 'passed through ' + ', '.join(o[0] + (' `' + o[1] + '`' if o[1] else '') for o in card(o2))][bool(card(o2))]}: the pairs no longer belong together")
+    if floor:
+        ctx.floor(rule, f"{label}: zip() sites with related operands", k, floor)
+    else:
+        ctx.ok(rule, f"{label}: {n} zip() call(s), {k} with related operands")
+    ctx.extra.setdefault("zip_sites", {})[label] = {"zip_calls": n, "related_pairs": k}
+
+
+# --------------------------------------------------------------------------- ITER-MUT
+# structural modification of the sequence a for-loop is iterating over
+
+_SEQ_MUTATORS = ("remove", "pop", "insert", "append", "extend", "clear", "sort", "reverse", "add", "discard", "update", "popitem")
+
+_ITERMUT_POSITIVE = """
+def f(lines, d):
+    for l in lines:
+        if l:
+            lines.remove(l)
+    for k in d:
+        del d[k]
+    for l in list(lines):
+        lines.remove(l)
+    for l in lines:
+        if l:
+            lines.remove(l)
+            break
+"""
+
+
+def _leaves_loop_after(stmt, loop) -> bool:
+    """the statement is followed, in its own block, by break / return / raise (the iterator is not advanced again)"""
+    p = getattr(stmt, "_parent", None)
+    while p is not None:
+        for fld in ("body", "orelse", "finalbody"):
+            blk = getattr(p, fld, None)
+            if isinstance(blk, list) and any(stmt is s for s in blk):
+                i = next(k for k, s in enumerate(blk) if s is stmt)
+                if any(isinstance(s, (ast.Break, ast.Return, ast.Raise)) for s in blk[i + 1:]):
+                    return True
+        if p is loop:
+            return False
+        stmt, p = p, getattr(p, "_parent", None)
+    return False
+
+
+def iteration_mutations(fnode):
+    for lp in own_nodes(fnode):
+        if not isinstance(lp, ast.For):
+            continue
+        it = lp.iter
+        if isinstance(it, ast.Call) and isinstance(it.func, ast.Name) and it.func.id == "enumerate" and it.args:
+            it = it.args[0]
+        if isinstance(it, ast.Call) and isinstance(it.func, ast.Attribute) and it.func.attr in ("items", "keys", "values") and not it.args:
+            it = it.func.value
+        if not isinstance(it, (ast.Name, ast.Attribute)):
+            continue
+        seq = norm(it)
+        for b in lp.body:
+            for n in ast.walk(b):
+                stmt = None
+                if isinstance(n, ast.Call) and isinstance(n.func, ast.Attribute) and n.func.attr in _SEQ_MUTATORS and norm(n.func.value) == seq:
+                    stmt = n
+                elif isinstance(n, ast.Delete) and any(isinstance(t, ast.Subscript) and norm(t.value) == seq for t in n.targets):
+                    stmt = n
+                if stmt is None:
+                    continue
+                s = stmt
+                while not isinstance(s, ast.stmt):
+                    s = s._parent
+                if _leaves_loop_after(s, lp):
+                    continue
+                # rebinding the name inside the loop before the mutation makes it another object: not handled -> skip
+                yield lp, stmt, seq
+
+
+def rule_iteration_mutation(ctx, modnames, label):
+    rule = "ITER-MUT"
+    ctx.rule(rule, "no structural modification (remove / pop / insert / append / del ...) of the very sequence a for-loop iterates over "
+                   "unless the loop is left right after it: the iterator skips or repeats elements otherwise")
+    t = ast.parse(_ITERMUT_POSITIVE)
+    for p in ast.walk(t):
+        for c in ast.iter_child_nodes(p):
+            c._parent = p
+    pos = list(iteration_mutations(t.body[0]))
+    if len(pos) != 2:
+        raise AnalysisError(rule, "positive-example", f"the matcher recognises {len(pos)}/2 idioms of its own positive example")
+    n = 0
+    for f in _funcs_of(ctx, modnames):
+        n += 1
+        for lp, stmt, seq in iteration_mutations(f.node):
+            ctx.fail(rule, f"{f.qname}: `{norm(stmt)[:40]}` inside `for .. in {seq}`", f.qname, f"mutates-iterated:{seq[:30]}", f.module.relpath, stmt.lineno,
+                     f"`{norm(stmt)[:60]}` changes `{seq}` while `for {norm(lp.target)} in {norm(lp.iter)[:30]}` is iterating over it: after a removal the iterator "
+                     f"skips the next element (two adjacent candidates: the second survives)")
+    ctx.ok(rule, f"{label}: {n} functions, no loop modifies the sequence it iterates over")
+
+
+def rule_hygiene(ctx):
+    """Generic rules with an expected count of zero, applied to exactly the functions the property's own rules analysed
+    (ctx.functions_analysed): a defect elsewhere in the same file is another property's business."""
+    anchored = anchor_functions(ctx)
+    if len(anchored) < 3:
+        raise AnalysisError("HYGIENE", ctx.prop, f"only {len(anchored)} of the functions named in the property's anchors were found")
+    ctx.touch(*anchored)
+    ctx.extra["anchor_functions_found"] = len(anchored)
+    # scope: the anchored functions plus the analysed functions that live in the files the property is anchored in
+    # (a defect in a function that is merely reachable, in another file, is another property's business)
+    files = {f.module.relpath for f in anchored}
+    fs = [ctx.prog.functions[q] for q in sorted(ctx.functions_analysed) if q in ctx.prog.functions and ctx.prog.functions[q].module.relpath in files]
+    label = f"{len(fs)} functions of {ctx.prop} in {len(files)} anchored file(s)"
+    rule_F11(ctx, fs, label)
+    rule_iteration_mutation(ctx, fs, label)
+    rule_zip_parallel(ctx, fs, label, floor=0)
+    rule_carry(ctx, fs, label)
+
+
+# --------------------------------------------------------------------------- CARRY
+# state carried from one loop round to the next
+
+_CARRY_POSITIVE = """
+def f(xs, tick):
+    last = 0
+    out = []
+    for a, b in xs:
+        if a is None:
+            continue
+        out.append(a - last)
+        last = a + b
+    prev = 0
+    for t, v in xs:
+        if tick < t:
+            break
+        out.append(prev)
+        prev = v
+    return out, v
+"""
+
+
+def carry_sites(f_or_node, cfg):
+    """(loop, carry statement, name): top-level statements `name = <expression over the loop variables>` of a for-loop body
+    whose previous-round value is *read* in the loop: some path from the loop head reaches a read of `name` without passing
+    an assignment to it."""
+    from ..core.cfg import loads_of, stores_of
+    fnode = getattr(f_or_node, "node", f_or_node)
+    for lp in own_nodes(fnode):
+        if not isinstance(lp, ast.For):
+            continue
+        tv = {n.id for n in ast.walk(lp.target) if isinstance(n, ast.Name)}
+        head = cfg.node_of(lp)
+        if head is None:
+            continue
+        inloop = {id(x) for b in lp.body for x in ast.walk(b)}
+        for s in lp.body:
+            if isinstance(s, ast.Assign) and len(s.targets) == 1 and isinstance(s.targets[0], ast.Name) and s.targets[0].id not in tv:
+                names = {n.id for n in ast.walk(s.value) if isinstance(n, ast.Name) and isinstance(n.ctx, ast.Load)}
+                calls = any(isinstance(n, ast.Call) for n in ast.walk(s.value))
+                name = s.targets[0].id
+                outer = set()
+                q = getattr(lp, "_parent", None)
+                while q is not None and q is not fnode:
+                    if isinstance(q, ast.For):
+                        outer |= {n.id for n in ast.walk(q.target) if isinstance(n, ast.Name)}
+                    q = getattr(q, "_parent", None)
+                if not (names and names <= tv | outer | {name} and names & tv and not calls):
+                    continue
+                # reads of the previous round's value
+                seen, todo, carried = set(), [m for m, l in head.succ if l == "T"], False
+                while todo and not carried:
+                    n = todo.pop()
+                    if n.id in seen or n is head or n.ast is None or id(n.ast) not in inloop:
+                        continue
+                    seen.add(n.id)
+                    if any(x.id == name for x in loads_of(n)):
+                        carried = True
+                        break
+                    if name in stores_of(n):
+                        continue
+                    todo.extend(m for m, l in n.succ if l != "exc")
+                if carried:
+                    yield lp, s, name
+
+
+def rule_carry(ctx, scope, label):
+    rule = "CARRY"
+    ctx.rule(rule, "loop-carried state: a for-loop that keeps `name = <expression over its loop variables>` for the next round (and reads "
+                   "`name` in the loop) executes that update on every path from one round to the next (no `continue` in front of it), and "
+                   "if the loop can `break` before the update, the loop variables themselves are not read after the loop (the carried name "
+                   "describes the last completed round)")
+    from ..core.cfg import CFG
+    t = ast.parse(_CARRY_POSITIVE)
+    for p in ast.walk(t):
+        for c in ast.iter_child_nodes(p):
+            c._parent = p
+    pos = list(_carry_violations(t.body[0], CFG(t.body[0])))
+    if len(pos) != 2:
+        raise AnalysisError(rule, "positive-example", f"the matcher recognises {len(pos)}/2 idioms of its own positive example")
+    n = k = 0
+    for f in _funcs_of(ctx, scope):
+        sites = list(carry_sites(f, world(ctx).inf.cfg(f)))
+        if not sites:
+            continue
+        n += 1
+        k += len(sites)
+        for kind, node, name, lp in _carry_violations(f.node, world(ctx).inf.cfg(f)):
+            if kind == "skipped":
+                ctx.fail(rule, f"{f.qname}: `{norm(node)[:40]}` every round", f.qname, f"carry-skipped:{f.name}", f.module.relpath, node.lineno,
+                         f"some path through the loop at line {lp.lineno} reaches the next round without executing `{norm(node)[:50]}`: the next round "
+                         f"works with the `{name}` of an earlier round")
+            else:
+                ctx.fail(rule, f"{f.qname}: `{name}` after the loop", f.qname, f"loop-variable-after-break:{f.name}", f.module.relpath, node.lineno,
+                         f"`{name}` is the loop variable of the loop at line {lp.lineno}, which can `break` before its carried copy is updated: after the loop it "
+                         f"holds the element the loop stopped *at*, not the last one it completed — the carried copy is the value in force")
+    ctx.ok(rule, f"{label}: {k} carried update(s) in {n} function(s)")
+
+
+def _carry_violations(fnode, cfg):
+    for lp, s, name in carry_sites(fnode, cfg):
+        head = cfg.node_of(lp)
+        node = cfg.node_of(s)
+        if head is None or node is None:
+            continue
+
+        class _S:
+            pass
+        st = _S()
+        st.succ = [(m, l) for m, l in head.succ if l == "T"]
+        if cfg.paths_avoiding(st, {node}, {head}):
+            yield "skipped", s, name, lp
+        # break before the carry: loop variables must not be read after the loop
+        idx = lp.body.index(s)
+        breaks_before = any(isinstance(x, ast.Break) for b in lp.body[:idx] for x in ast.walk(b))
+        if breaks_before:
+            tv = {n.id for n in ast.walk(lp.target) if isinstance(n, ast.Name)}
+            carried_from = {n.id for n in ast.walk(s.value) if isinstance(n, ast.Name)} & tv
+            p = getattr(lp, "_parent", None)
+            for fld in ("body", "orelse", "finalbody"):
+                blk = getattr(p, fld, None)
+                if isinstance(blk, list) and any(lp is x for x in blk):
+                    i = next(j for j, x in enumerate(blk) if x is lp)
+                    live = set(carried_from)
+                    for later in blk[i + 1:]:
+                        for x in ast.walk(later):
+                            if isinstance(x, ast.Name) and isinstance(x.ctx, ast.Load) and x.id in live:
+                                yield "after-break", x, x.id, lp
+                                live.discard(x.id)
+                        live -= {x.id for x in ast.walk(later) if isinstance(x, ast.Name) and isinstance(x.ctx, ast.Store)}
+
+
+def anchor_functions(ctx):
+    """Functions named in the property's anchors (`where` of state / mechanism entries in properties.jsonl): the hygiene
+    rules cover them even when no property-specific rule looks at them."""
+    import json, os, re
+    path = os.path.join(os.path.dirname(os.path.dirname(os.path.dirname(os.path.abspath(__file__)))), "properties.jsonl")
+    out = []
+    with open(path) as fh:
+        for line in fh:
+            d = json.loads(line)
+            if d["id"] != ctx.prop:
+                continue
+            for kind in ("state", "mechanism"):
+                for m in d["anchors"].get(kind, []):
+                    for part in m["where"].split(";"):
+                        if ":" not in part:
+                            continue
+                        file, names = part.split(":", 1)
+                        mod = file.strip()[:-3].replace("/", ".")
+                        if mod.endswith(".__init__"):
+                            mod = mod[:-9]
+                        names = re.sub(r"\([^)]*\)", "", names)
+                        for nm in names.split(","):
+                            nm = nm.strip()
+                            if not re.fullmatch(r"[A-Za-z_][\w.]*", nm):
+                                continue
+                            for f in ctx.prog.functions_in(mod):
+                                short = f.qname.split(":")[1].split("#")[0]
+                                if short == nm or short.endswith("." + nm) or short.startswith(nm + "."):
+                                    out.append(f)
+    return out
